@@ -2553,6 +2553,18 @@ func (s *dvSim) fork(trigger string, final bool) {
 						check(o)
 					}
 				}
+				// a bound pod can be in a second, doomed scheduling cycle (its bind acknowledgement was lost and the assigned
+				// event has not been delivered yet): its live entry is then that cycle's reservation, not the persisted allocation
+				inCycle := s.open != nil && s.open.pod != nil && s.open.pod.Name == p.Name
+				for _, t := range s.tasks {
+					if t.name == p.Name {
+						inCycle = true
+					}
+				}
+				if inCycle {
+					r.Probe("c19:live-entry-not-comparable(pod has a scheduling cycle in flight)")
+					continue
+				}
 				if !comparable {
 					r.Probe("c19:live-entry-not-comparable(live cache lags the store)")
 					continue
